@@ -192,8 +192,10 @@ def _prog_chain(E, f, g, h):
     from quantity.term import Term
     x4 = X.new_unit('x4', None, Term(((7, 1), (x0, 1))))
     x5 = X.new_unit('x5', None, Term(((3, 1), (x0, 1))))
-    S = {x0: 1, x1: f, x2: f * g, x3: f * g * h, x4: 7, x5: 3}
-    return X, [x0, x1, x2, x3, x4, x5], S
+    x6 = X.new_unit('x6', None, Term(((3, -1), (x0, 1))))
+    x7 = X.new_unit('x7', None, Term(((60, -1), (x4, 1))))
+    S = {x0: 1, x1: f, x2: f * g, x3: f * g * h, x4: 7, x5: 3, x6: Fraction(1, 3), x7: Fraction(7, 60)}
+    return X, [x0, x1, x2, x3, x4, x5, x6, x7], S
 
 
 def _prog_derived(E, f, g, h):
